@@ -885,6 +885,50 @@ def run_case(ctx, case):
             n_ in comp and np.shape(comp[n_]) == (R, C) and comp[n_][r, c] == 1.0 for (r, c), n_ in exp["names"].items()
         )
         ctx.check("given_names_used_verbatim", okn, det)
+    iv = spec.get("initial_volumes")
+    if isinstance(iv, np.ndarray) and iv.size and ok_v:
+        # The array handed in stays the CALLER's: a twin built from the very same array, liquid added to the
+        # first labware, and the caller re-using its array afterwards must leave what each constructed labware
+        # reports as its initial state exactly "as given".
+        ctx.count("caller_array_kept_and_reused")
+        twin, exc3 = None, None
+        try:
+            twin = _construct(spec)
+        except Exception as e:
+            exc3 = e
+        ctx.check("representable_specification_is_constructed", exc3 is None,
+                  lambda: dict(det(), twin_from_same_array_raised=repr(exc3)))
+        given = np.array(iv, dtype=float, copy=True)
+        booked = None
+        try:
+            free = np.argwhere(expv + 1e-3 <= float(spec["max_volume"]))
+            if len(free):
+                r_, c_ = (int(x) for x in free[0])
+                w_ = wid(r_, c_)
+                lw.add(w_, 1e-3 if float(spec["max_volume"]) - expv[r_, c_] < 1 else 0.5)
+                booked = (r_, c_)
+                ctx.count("first_labware_operated_on")
+        except Exception:
+            booked = None
+        ctx.check("caller_array_not_written_by_the_labware", bool(np.array_equal(np.asarray(iv, dtype=float), given)),
+                  lambda: dict(det(), caller_array_after=np.asarray(iv).tolist()[:32], caller_array_before=given.tolist()[:32]))
+        if twin is not None and np.shape(twin.volumes) == (R, C):
+            ctx.check("initial_volumes_laid_out_as_given", bool(np.array_equal(twin.volumes, expv)),
+                      lambda: dict(det(), twin_volumes=twin.volumes.tolist()[:8], note="twin built from the same caller array; the first labware received liquid"))
+        if iv.flags.writeable:
+            iv[...] = 0 if float(np.max(given)) > 0 else min(1.0, float(spec["max_volume"]))
+            ctx.count("caller_array_overwritten_after_construction")
+            for which, obj in (("first", lw), ("twin", twin)):
+                if obj is None:
+                    continue
+                want = expv.copy()
+                if which == "first" and booked is not None:
+                    want[booked] = obj.volumes[booked]  # the booked well is judged elsewhere (C02/C04)
+                h0 = obj.history[0][1] if obj.history else None
+                ctx.check("initial_volumes_laid_out_as_given",
+                          bool(np.array_equal(obj.volumes, want)) and h0 is not None and bool(np.array_equal(np.asarray(h0, dtype=float), expv)),
+                          lambda which=which, obj=obj: dict(det(), labware=which, volumes_now=obj.volumes.tolist()[:8],
+                                                            note="the caller overwrote its own array after construction"))
     if (R * 7 + C) % 4 == 0:
         # this labware is not needed any more: the caller re-uses what it exposes (aliases added to the index map,
         # retired wells deleted, the ID array blanked) - labware constructed later must not notice
